@@ -112,7 +112,14 @@ def check_counter(chk):
     jump_ids = {id(x) for s in sections.get('jump', []) for x in ast.walk(s)}
     for d in others:
         if id(d) in jump_ids:
-            chk.ok('C08.PC', f'{norm(d)} (jump target: label index, then the common increment)')
+            v = d.value
+            if isinstance(v, ast.Name) or (isinstance(v, ast.Subscript) and isinstance(v.value, ast.Name)) or \
+                    (isinstance(v, ast.Call) and isinstance(v.func, ast.Attribute) and v.func.attr == 'get'):
+                chk.ok('C08.PC', f'{norm(d)} (jump target: the label\'s own index, then the common increment)')
+            else:
+                chk.bad('C08.PC', mod, func.name, norm(d),
+                        f'a taken jump must set the counter to the index of the label itself (execution continues after the label through the common increment); {norm(d)} '
+                        f'lands elsewhere and skips or repeats a statement', node=d)
         else:
             chk.bad('C08.PC', mod, func.name, norm(d), 'the program counter is assigned outside the jump branch', node=d)
     return pc
